@@ -293,6 +293,51 @@ def expected(c):
                      "Manager.copy_expr_from")
     except Exception as ex:     # noqa
         rac.fail("copy nested-source", f"C11 copy_expr_from with a nested source binding raised {type(ex).__name__}: {ex}", PRELUDE + CP, "Manager.copy_expr_from")
+    rac.section("repeated+partial", "a second copy / load on the SAME receiving manager after a copy with rebound labels (the receiving manager's own "
+                "label table must be untouched by the first); load(overwrite=False) where the manager already holds a definition of an ELEMENT of "
+                "a container the dump defines as a whole, or uses the dump's target as a dependency only: exactly the missing definitions arrive",
+                "5 crafted sequences")
+    RP = {
+        "rebound copy then plain copy": (
+            "cs = {'a': 2.0, 'b': 0.0}; ms = xdeps.Manager(); rs = ms.ref(cs, 'ref'); rs['b'] = rs['a'] * 3\n"
+            "c2 = {'a': 5.0, 'b': 0.0, 'w': {'a': 7.0, 'b': 0.0}}; m2 = xdeps.Manager(); r2 = m2.ref(c2, 'ref')\n"
+            "m2.copy_expr_from(ms, 'ref', bindings={'ref': r2['w']})\nm2.copy_expr_from(ms, 'ref')\nr2['a'] = 5.0; r2['w']['a'] = 7.0\n",
+            "sorted(m2.dump()) == [(\"ref['b']\", \"(ref['a'] * 3)\"), (\"ref['w']['b']\", \"(ref['w']['a'] * 3)\")] and c2['b'] == 15.0 and c2['w']['b'] == 21.0"),
+        "rebound copy then load": (
+            "cs = {'a': 2.0, 'b': 0.0}; ms = xdeps.Manager(); rs = ms.ref(cs, 'ref'); rs['b'] = rs['a'] * 3\n"
+            "c2 = {'a': 5.0, 'b': 0.0, 'w': {'a': 7.0, 'b': 0.0}}; m2 = xdeps.Manager(); r2 = m2.ref(c2, 'ref')\n"
+            "m2.copy_expr_from(ms, 'ref', bindings={'ref': r2['w']})\nm2.load(ms.dump())\nr2['a'] = 5.0; r2['w']['a'] = 7.0\n",
+            "sorted(m2.dump()) == [(\"ref['b']\", \"(ref['a'] * 3)\"), (\"ref['w']['b']\", \"(ref['w']['a'] * 3)\")] and c2['b'] == 15.0 and c2['w']['b'] == 21.0"),
+        "two rebound copies": (
+            "cs = {'a': 2.0, 'b': 0.0}; ms = xdeps.Manager(); rs = ms.ref(cs, 'ref'); rs['b'] = rs['a'] * 3\n"
+            "c2 = {'u': {'a': 1.0, 'b': 0.0}, 'w': {'a': 7.0, 'b': 0.0}}; m2 = xdeps.Manager(); r2 = m2.ref(c2, 'ref')\n"
+            "m2.copy_expr_from(ms, 'ref', bindings={'ref': r2['w']})\nm2.copy_expr_from(ms, 'ref', bindings={'ref': r2['u']})\nr2['u']['a'] = 1.0; r2['w']['a'] = 7.0\n",
+            "sorted(m2.dump()) == [(\"ref['u']['b']\", \"(ref['u']['a'] * 3)\"), (\"ref['w']['b']\", \"(ref['w']['a'] * 3)\")] and c2['u']['b'] == 3.0 and c2['w']['b'] == 21.0"),
+        "load(overwrite=False): whole container in the dump, one element already defined": (
+            "import numpy as np\ncs = {'x': 2.0, 'vec': np.zeros(2), 's': 0.0}; ms = xdeps.Manager(); rs = ms.ref(cs, 'ref'); fs = ms.ref(np, 'np')\n"
+            "rs['vec'] = fs.ones(2) * rs['x']; rs['s'] = rs['vec'][1] + 1\n"
+            "c2 = {'x': 4.0, 'vec': np.zeros(2), 's': 0.0, 'y': 0.5}; m2 = xdeps.Manager(); r2 = m2.ref(c2, 'ref'); f2 = m2.ref(np, 'np')\n"
+            "r2['vec'][0] = r2['y']\nown = str(m2.tasks[r2['vec'][0]].expr)\nm2.load(ms.dump(), overwrite=False)\nr2['x'] = 10.0\n",
+            "dict(m2.dump()).get(\"ref['vec']\") == dict(ms.dump())[\"ref['vec']\"] and dict(m2.dump()).get(\"ref['s']\") == dict(ms.dump())[\"ref['s']\"] "
+            "and str(m2.tasks[r2['vec'][0]].expr) == own and len(m2.dump()) == 3 and c2['vec'][1] == 10.0 and c2['s'] == 11.0"),
+        "load(overwrite=False): target used as a dependency only, consumer listed first": (
+            "cs = {'a': 1.0, 'b': 0.0, 'c': 0.0}; ms = xdeps.Manager(); rs = ms.ref(cs, 'ref'); rs['c'] = rs['b'] + 1; rs['b'] = rs['a'] * 2\n"
+            "c2 = {'a': 3.0, 'b': 0.0, 'c': 0.0, 'z': 0.0}; m2 = xdeps.Manager(); r2 = m2.ref(c2, 'ref'); r2['z'] = r2['b'] * 10\n"
+            "m2.load(ms.dump(), overwrite=False)\nr2['a'] = 5.0\n",
+            "(c2['b'], c2['c'], c2['z']) == (10.0, 11.0, 100.0) and len(m2.dump()) == 3"),
+    }
+    for name, (src, cond) in RP.items():
+        scr = PRELUDE + "import xdeps\n" + src + "print(sorted(m2.dump()), c2)\nassert " + cond + "\n"
+        rac.case(("repeated+partial", name), sample=name)
+        envr = {"xdeps": xdeps}
+        try:
+            exec(src, envr)
+            ok = eval(cond, envr)
+            got = (sorted(envr["m2"].dump()), envr["c2"])
+        except Exception as ex:     # noqa
+            ok, got = False, f"raised {type(ex).__name__}: {ex}"
+        if not ok:
+            rac.fail("repeated+partial " + name, f"C11 {name}: the receiving manager ends with {got}", scr, "Manager.copy_expr_from" if "copy" in name else "Manager.load")
     return rac.finish()
 
 
